@@ -351,3 +351,45 @@ def validate_records(ck, recs, shards=12, label='traces', corrupt_selftest=True,
     if corrupt_selftest and corrupted and ck.notes.get('corruptions_rejected', 0) < len(corrupted) * 0.6:
         raise tlc.MachineryError(f"trace binding self-test: only {ck.notes.get('corruptions_rejected', 0)} of {len(corrupted)} corrupted traces were rejected")
     return nacc
+
+
+def machine_check(ck, items, label, maxlen=4, maxtexts=40, variants=(('prune', {'prune': True}), ('noprune', {'prune': False})), maxmiss=2):
+    """Model-check PegMachine (every memo schedule with up to `maxmiss` forced misses, pruning on cut on/off) on items x texts:
+    Refines (against PegSem), FramesBalanced, CutContained, StepBound; the machine's outcome and value must equal the engine's."""
+    from .impl import run_model_case
+    marked = with_marks([it['g'] for it in items])
+    jobs, cases = Jobs(), []
+    for it, g in zip(items, marked):
+        texts = [t for t in it['texts'] if len(t) <= maxlen][:maxtexts]
+        for _vname, vk in variants:
+            cfg = make_cfg(chars_of(g, texts), **{k: v for k, v in (it.get('cfg') or {}).items()})
+            cfg.update({'memoize': True, 'maxmiss': maxmiss, **vk})
+            jobs.add(g, cfg, texts, start=it.get('start', 's'))
+            cases.append(default_case(to_ebnf(it['g']), texts, settings=it.get('settings'), start=it.get('start', 's'), wrap=False,
+                                      **(it.get('case') or {})))
+    r, mach = run_machine(jobs)
+    ck.add_tlc(r, f'PegMachineMC ({label})')
+    if r.violated:
+        ck.violation({'kind': 'schedule', 'inputs': {'spec': 'PegMachineMC', 'universe': label},
+                      'expected': 'Refines, FramesBalanced, StepBound, CutContained under every schedule', 'observed': r.violated,
+                      'trace': [ln for ln in r.trace if not ln.startswith('"RES')][:80]}, key='machine' + label + str(r.violated))
+        return 0
+    if r.distinct < 3 * jobs.ncases():
+        raise tlc.MachineryError(f'vacuous PegMachine run: {r.distinct} states for {jobs.ncases()} cases')
+    impl = run_impl(cases, fn=run_model_case, chunk=4)
+    n = 0
+    for j, (c, im) in enumerate(zip(cases, impl), 1):
+        if im['compile']['k'] != 'ok':
+            continue
+        for t, ir in enumerate(im['res'], 1):
+            if t not in mach.get(j, {}):
+                raise tlc.MachineryError(f'PegMachineMC produced no final state for job {j} text {t}')
+            n += 1
+            why = machine_vs_impl(mach[j][t], ir['plain'])
+            if why:
+                ck.violation({'kind': 'parse', 'inputs': {'grammar': c['ebnf'], 'text': ''.join(c['texts'][t - 1]), 'settings': c['settings']},
+                              'expected': mach[j][t]['r'], 'observed': ir['plain'], 'why': why, 'spec': 'PegMachine (exact transcription)'},
+                             key='mach' + c['ebnf'] + why[:20])
+    ck.count(evaluations=n, traces=n)
+    ck.notes[f'machine_cases ({label})'] = n
+    return n
